@@ -175,10 +175,20 @@ def entry(B, cfg):
     raise ValueError(kind)
 
 
+def _seed(v):
+    """seeds of other integer types are seeds too (NumPy integer scalars,
+    e.g. an element of np.arange or the result of rng.integers)"""
+    if isinstance(v, str) and v.startswith('np.'):
+        t, n = v[3:].split(':')
+        return getattr(np, t)(int(n))
+    return v
+
+
 def case_repro(B, cfg):
     if not B.symbolic:
         return
-    f = entry(B, cfg)
+    f0 = entry(B, cfg)
+    f = lambda s: f0(_seed(s))
     results = []
     for gstate, interleave in (('A', False), ('B', True)):
         rng = B.new_rng()
@@ -294,6 +304,13 @@ def jobs(tier):
         # the integer seed 0 is a seed like any other
         out.append(('repro', 'case_repro', dict(e, seed_value=0, light=True),
                     FACTS))
+        # NumPy integer scalars as seeds
+        out.append(('repro', 'case_repro', dict(
+            e, seed_value='np.int64:11', light=True), FACTS))
+        if e['entry'] in ('prior_predictive', 'predictive', 'pam',
+                          'posterior_predictive'):
+            out.append(('repro', 'case_repro', dict(
+                e, seed_value='np.uint32:7', light=True), FACTS))
     for e in entries:
         if e['entry'] in ('em', 'pop'):
             for seed in (11, 0):
